@@ -1,9 +1,12 @@
-"""C01, tangle layer: the first layer of the v2 engine (yui-link Path, TngComp / Tng of kh/internal/v2/tng.rs, and the numeric
-bookkeeping of CobComp::connect / Cob::connect in cob.rs) inside the Coq model (Model/Tng.v, Model/TngCob.v, theorems
-Properties/C01Tng.v) with an exact correspondence run against the real code.
+"""C01, tangle layer: the first layer of the v2 engine (yui-link Path, TngComp / Tng of kh/internal/v2/tng.rs, the numeric
+bookkeeping of CobComp::connect / Cob::connect, and the vertical composition Cob::stack / Cob::id / Cob::inv / cap_off /
+part_eval / LcCob of cob.rs) inside the Coq model (Model/Tng.v, Model/TngCob.v, Model/TngStack.v, theorems
+Properties/C01Tng.v and Properties/C01Stack.v) with an exact correspondence run against the real code.
 
 Used by vlib/c01.py:   obl_part, corr_part = c01tng.run_part(ctx)
-  obl_part  = C.coq_obligations("C01", [...ExtractC01Tng.vo], more_props=["C01Tng"]) restricted to the tangle files
+  obl_part  = C.coq_obligations("C01", [...ExtractC01Tng.vo], more_props=PROPS) restricted to the tangle files
+              (PROPS = ["C01Tng", "C01Stack"]; vlib/c01.py should pass `["C01Smith"] + c01tng.PROPS` as more_props of its own
+              coq_obligations / coqchk calls so that the thorough tier runs coqchk on Properties/C01Stack.vo too)
               (keys as C.coq_obligations: ok, problems, theorems, obligations, discharged, axioms, files, build_s)
   corr_part = C.correspondence(<own Ctx "C01TNG">, "c01tng", ...) (keys as C.correspondence: ok, n, disagreements,
               distinct_nontrivial, samples, kinds, error, timings)
@@ -18,6 +21,7 @@ from . import common as C
 
 PID = "C01TNG"
 PROP = "C01Tng"
+PROPS = ["C01Tng", "C01Stack"]
 EXTRACT = "Extract/ExtractC01Tng.vo"
 
 RULE = ("tangle layer (Model/Tng.v against the real yui-link Path and v2 TngComp/Tng, every component compared RAW = the stored "
@@ -43,9 +47,23 @@ RULE = ("tangle layer (Model/Tng.v against the real yui-link Path and v2 TngComp
         "is_invertible / is_closed, at the end Cob::inv; cx = CobComp::connect called directly on two components (also "
         "non-connectable ones: the assert on the shared end points is a P in both); nbdr_comps iterates hash sets: its count "
         "is order independent on these well-formed components (three fresh processes gave identical output). "
+        "Vertical composition (Model/TngStack.v against the real Cob::stack / is_stackable / Mul / Cob::id / inv / src / tgt / "
+        "cap_off / part_eval and LcCob<i64> `*` / part_eval / is_invertible / inv): sk = scripts over a Cob register and an LcCob "
+        "register; layers are either abstract surfaces (a random tangle of <= 3 arcs and <= 2 circles; every group of 0-3 "
+        "components goes to new components with the same end points re-paired at random and 0-2 new circles, random genus / dots "
+        "within a budget, built through CobComp::new / cup / cap / id / merge / split / sdl, the middle components re-oriented "
+        "and rotated at random so that only == holds) or consecutive edges of the cube of resolutions of a random diagram with "
+        "<= 6 crossings (saddle at one crossing, cylinders over the V/H resolutions of the others, joined by Cob::connect in a "
+        "random order); 2-4 layers are stacked one after the other (after every stack: is_stackable, the RAW components with "
+        "genus, dots, nbdr_comps, euler_num, deg; `cur * acc` must print the same), then the same layers stacked from the top "
+        "down must be == (AS), src / tgt (SRC), Cob::id(src).stack(c) == c == c.stack(Cob::id(tgt)) (ID), c.stack(c.inv()) == "
+        "id (INV), cap_off of a circle with a dot (CO), part_eval(h, t) with small h, t (PE); linear combinations with 1-3 "
+        "terms per factor (coarsenings of the same layer, other genus / dots, coefficients -2..2) multiplied and part_eval'ed "
+        "(LC / MUL / LPE / LINV), compared as sets of terms with canonically oriented keys; 1/12 malformed (a component "
+        "dropped, layers swapped: not stackable, release build goes on or panics - P in both). "
         "non-trivial = some printed component has >= 3 labels; distinct = distinct case lines")
 
-MARKERS = ("FAIL", "?connected", "?partial_cmp", "?ctor", "?dots", "BAD-", "P-CASE", "circ=P")
+MARKERS = ("FAIL", "?connected", "?partial_cmp", "?ctor", "?dots", "BAD-", "P-CASE", "circ=P", "?mul")
 
 
 def nontrivial(case, impl):
@@ -69,19 +87,21 @@ def equal(case, impl, model):
 
 
 def _own_files(files):
-    return [f for f in files if re.search(r"(Model/Tng(Cob)?\.v|Proofs/TngP[A-Za-z0-9]*\.v|Properties/C01Tng\.v|Extract/ExtractC01Tng\.v)$", f)]
+    return [f for f in files if re.search(r"(Model/Tng(Cob|Stack)?\.v|Proofs/TngP[A-Za-z0-9]*\.v|Properties/C01(Tng|Stack)\.v|Extract/ExtractC01Tng\.v)$", f)]
 
 
 def obligations():
-    """Properties/C01Tng.vo + extraction, audited like every property file (theorem prefix C01_)"""
+    """Properties/C01Tng.vo, Properties/C01Stack.vo + extraction, audited like every property file (theorem prefix C01_)"""
     gen = os.path.join(C.OCAML, "gen", "c01tng_model.ml")
     vo = os.path.join(C.COQ, "Extract", "ExtractC01Tng.vo")
     if not os.path.exists(gen) and os.path.exists(vo):
         os.remove(vo)                      # force re-extraction (build_runner's fallback derives another file name)
-    obl = C.coq_obligations("C01", [EXTRACT], more_props=[PROP])
-    # restrict the theorem list to the tangle property file
-    src = C.strip_comments(open(os.path.join(C.COQ, "Properties", PROP + ".v")).read())
-    own = re.findall(r"^\s*(?:Theorem|Lemma|Corollary|Example|Fact|Remark|Proposition)\s+([A-Za-z0-9_']+)", src, re.M)
+    obl = C.coq_obligations("C01", [EXTRACT], more_props=PROPS)
+    # restrict the theorem list to the tangle property files
+    own = []
+    for q in PROPS:
+        src = C.strip_comments(open(os.path.join(C.COQ, "Properties", q + ".v")).read())
+        own += re.findall(r"^\s*(?:Theorem|Lemma|Corollary|Example|Fact|Remark|Proposition)\s+([A-Za-z0-9_']+)", src, re.M)
     part = dict(obl)
     part["theorems"] = own
     part["obligations"] = len(own)
@@ -108,7 +128,7 @@ def replay_part(ctx, cases):
     return correspondence(ctx.tier, ctx.seed, replay_cases=cases)
 
 
-KINDS = ("pc", "kc", "kp", "kt", "cn", "wf", "mf", "cb", "cx")
+KINDS = ("pc", "kc", "kp", "kt", "cn", "wf", "mf", "cb", "cx", "sk")
 
 
 def merge(obl, corr, obl_part, corr_part):
